@@ -112,7 +112,9 @@ static long perform(TK& t, const std::string& e, long c, long v) {
     if (e == "HClearSemaphore") { t.ClearSemaphore((u16)v); return 0; }
     if (e == "HMaskSemaphore") { t.MaskSemaphore((u16)v); return 0; }
     if (e == "HGetSemaphore") return t.GetSemaphore();
-    if (e == "HReset") { t.Reset(); return 0; }
+    // Teakra::Reset also resets the ICU (since the fix b81da6f): the rig's routing of irq 14 to line 0 is part of
+    // the harness set-up, not of the behaviour under test, and is put back
+    if (e == "HReset") { t.Reset(); t.MMIOWrite(0x206, 0x4000); return 0; }
     if (e == "R") return t.MMIORead((u16)c);
     if (e == "W") { t.MMIOWrite((u16)c, (u16)v); return 0; }
     std::fprintf(stderr, "unknown event %s\n", e.c_str());
